@@ -8,7 +8,8 @@
             declared block size includes the 4 bytes on both sides
   FRAMING   block header = varint(count) then varint(byte size of the codec-framed data); one vectored write of
             [header, data, sync]; the reader reads count, size, takes `size` bytes, then compares 16 bytes with the
-            header's marker; sync marker is 16 bytes on both sides
+            header's marker; sync marker is 16 bytes on both sides; count and size reach the varint encoder with no
+            narrowing cast; the magic and the sync marker are compared as whole arrays (no sub-range)
   HEADER    every Ok return of the builder is dominated by the write of the complete header; schema JSON is the
             configuration schema's json()
 It does NOT decide that third-party tools read the file.
